@@ -23,7 +23,8 @@ RULE = ('scenarios = seeds x sigfield subsets / contents (0..200 bytes incl. '
         'script, each positive and with one dimension perturbed, and foreign-'
         'key cross-pairings of every witness with every lock. distinct = by '
         '(lock bytes, witness bytes, check-time fields); non-trivial = any '
-        'negative case, or a positive with flag != 0')
+        'negative case, or a positive with flag != 0'
+        ' [plus shuffled field order, registers-off and process-wide-extension processes, repeated keys in multisig key lists, script witnesses (programs instead of data, alone and in front of the honest witness), script objects with a history (part committed, extended with +, sum committed)]')
 ASSUMPTIONS = [
     'cryptographic never-claims judged on sampled perturbations',
     'same-key cross-builder pairings are executed and counted, not judged',
